@@ -22,6 +22,9 @@ namespace yakushima {
 [[maybe_unused]] static status leave(Token token);                    // NOLINT
 [[maybe_unused]] static status remove(Token token, tree_instance* ti, // NOLINT
                                       std::string_view key_view);
+[[maybe_unused]] static status remove(Token token, tree_instance* ti, // NOLINT
+                                      std::string_view key_view,
+                                      void** removed_value_body);
 
 status storage::create_storage(std::string_view storage_name) { // NOLINT
     // prepare create storage
@@ -59,13 +62,17 @@ status storage::delete_storage(std::string_view storage_name) { // NOLINT
         return status::WARN_NOT_EXIST;
     }
     // try remove the storage.
-    status ret_st{remove(token, get_storages(), storage_name)};
+    // The removed instance may differ from ret.first: a concurrent delete_storage and
+    // create_storage of the same name may have replaced it. Release what was removed.
+    void* removed_body{nullptr};
+    status ret_st{remove(token, get_storages(), storage_name, &removed_body)};
     if (ret_st == status::OK) {
-        base_node* tables_root = ret.first->load_root_ptr();
+        auto* removed_instance = static_cast<tree_instance*>(removed_body);
+        base_node* tables_root = removed_instance->load_root_ptr();
         if (tables_root != nullptr) {
             tables_root->destroy();
             delete tables_root; // NOLINT
-            ret.first->store_root_ptr(nullptr);
+            removed_instance->store_root_ptr(nullptr);
         }
         leave(token);
         return status::OK;
